@@ -339,7 +339,7 @@ def check_pickle(rep, prog, m):
     if not cons:
         raise AnalysisError('Spectrum_unpickler does not build a Spectrum')
     ctor = prog.func(SM, 'Spectrum.__new__')
-    b, problems = bind_call(ctor, cons[0], skip_self=True)
+    b, problems = bind_call(ctor, cons[0], skip_self=True, scope=up)
     for k in ('data', 'mask', 'data_folded', 'pop_ids', 'extrap_x'):
         v = b.get(k)
         rep.ob('R-IDX', 'Spectrum_unpickler', v is not None and ast.unparse(v) == k, 'constructor parameter %s receives %s' % (k, ast.unparse(v) if v is not None else None),
